@@ -3,7 +3,7 @@
    holds after every delivery sequence shorter than 2^64 - 1.  Walking [prev_hash] from the tip visits exactly the
    entries of the height index, highest first. *)
 From Virel Require Import Lib.Config Lib.U64 Lib.AMap Model.Ledger Model.Node Proofs.AMapLemmas Proofs.Conservation
-  Proofs.NodeBasics Proofs.ForkChoice Proofs.Restart Proofs.ChainInv.
+  Spec.Chain Proofs.NodeBasics Proofs.ForkChoice Proofs.Restart Proofs.ChainInv.
 Open Scope N_scope.
 
 Lemma length_nset_le {V} (m : list (N * V)) k v : (length (nset m k v) <= S (length m))%nat.
@@ -144,22 +144,6 @@ Proof.
       split; [reflexivity|]. split; [exact Hgg|]. split; [exact Hg0|]. intros Hlt. lia.
 Qed.
 
-(* the invariant, written out on the node's own fields *)
-Definition chain_structure (gh : N) (n : node) : Prop :=
-  (* (a) the block store is a tree rooted at genesis, no orphans *)
-  (forall h b, get_block n h = Some b -> b_hash b = h) /\
-  (exists g, get_block n gh = Some g /\ b_height g = 0) /\
-  (forall h b, get_block n h = Some b -> h <> gh ->
-     exists p, get_block n (prev_hash b) = Some p /\ b_height b = b_height p + 1) /\
-  (* (b) the height index is exactly the main chain, from genesis to the block [top], nothing above it *)
-  (exists t, get_block n (top n) = Some t /\
-     get_topo n (b_height t) = Some (top n) /\
-     get_topo n 0 = Some gh /\
-     (forall ht, b_height t < ht -> get_topo n ht = None) /\
-     (forall ht, ht <= b_height t ->
-        exists y yb, get_topo n ht = Some y /\ get_block n y = Some yb /\ b_height yb = ht /\
-                     (0 < ht -> get_topo n (ht - 1) = Some (prev_hash yb)))).
-
 Lemma CInv_chain_structure gh n : CInv gh n -> chain_structure gh n.
 Proof.
   intros ((Hk & Hg & Hp & _) & (_ & t & Ht & Htop & Habove & H0 & Hch)). unfold chain_structure, get_block, get_topo.
@@ -181,15 +165,23 @@ Proof.
     rewrite Hl. unfold two64 in *. lia.
 Qed.
 
-(* ---- (d) walking prev_hash from the tip visits the height index, highest entry first ---- *)
-Fixpoint walk (bl : list (N * block)) (k : nat) (x : N) : list N :=
-  match k with
-  | O => [x]
-  | S k' => x :: match nget bl x with Some b => walk bl k' (prev_hash b) | None => [] end
-  end.
-Fixpoint heights_down (k : nat) : list N :=
-  match k with O => [0] | S k' => N.of_nat (S k') :: heights_down k' end.
+(* the height-index clauses alone (property C17) *)
+Theorem height_index_is_main_chain g n0 ops :
+  node0 cfg genesis_addr g = Ok n0 -> b_height g = 0 -> b_cd g = b_diff g ->
+  N.of_nat (length ops) < two64 - 1 ->
+  let n := run cfg genesis_addr team_key n0 ops in
+  exists t, get_block n (top n) = Some t /\
+     get_topo n (b_height t) = Some (top n) /\
+     get_topo n 0 = Some (b_hash g) /\
+     (forall ht, b_height t < ht -> get_topo n ht = None) /\
+     (forall ht, ht <= b_height t ->
+        exists y yb, get_topo n ht = Some y /\ get_block n y = Some yb /\ b_height yb = ht /\
+                     (0 < ht -> get_topo n (ht - 1) = Some (prev_hash yb))).
+Proof.
+  intros H0 Hg0 Hcd Hlen n. destruct (chain_structure_always g n0 ops H0 Hg0 Hcd Hlen) as (_ & _ & _ & H). exact H.
+Qed.
 
+(* ---- (d) walking prev_hash from the tip visits the height index, highest entry first ---- *)
 Lemma walk_index gh bl tp x bx :
   TInv gh bl tp x -> nget bl x = Some bx ->
   forall k y, N.of_nat k <= b_height bx -> nget tp (N.of_nat k) = Some y ->
